@@ -3,8 +3,8 @@
 package txmgr
 
 import (
-	"encoding/binary"
 	"bytes"
+	"encoding/binary"
 
 	"github.com/massnetorg/mass-core/blockchain"
 	"github.com/massnetorg/mass-core/database"
@@ -165,18 +165,25 @@ func vStakingLifecycle(issued bool) {
 	h2all, h2live := history(false), history(true)
 	rt.Assert(len(h2all) == 1 && h2all[0].txhash == D.Hash && h2all[0].vout == di && h2all[0].withdrawn && len(h2live) == 0, "deposit-shown-withdrawn-exactly-once")
 	rt.Assert(len(s.a.Ents) == 2 && vUsedAddresses(s) == 2, "withdrawal-target-address-marked-used")
-	// 3. the withdrawal's block is reorganised away
-	err := mwdb.Update(s.db, func(dbtx mwdb.DBTransaction) error { return s.tx.Rollback(dbtx, b2.Height) })
-	rt.Assert(err == nil, "withdrawal-block-rolled-back")
-	setTip(b1)
-	h3 := history(true)
-	rt.Assert(len(h3) == 1 && h3[0].txhash == D.Hash && h3[0].vout == di && !h3[0].withdrawn && h3[0].blockHeight == b1.Height && len(history(false)) == 1, "deposit-not-withdrawn-again")
-	cv = s.c.Lookup(ck)
-	rt.Assert(len(cv) == 45 && cv[8]&1 == 0 && s.u.Lookup(canonicalUnspentKey(verifWID, &D.Hash, di)) != nil, "deposit-coin-unspent-again")
-	rt.Assert(vUsedAddresses(s) == 1, "only-the-staking-address-is-still-used")
+	// 3. the withdrawal's block is reorganised away - on its own, or together with the deposit's block by the one
+	// Rollback call of step 4 (a reorganisation two blocks deep)
+	both := rt.NondetBool()
+	if !both {
+		err := mwdb.Update(s.db, func(dbtx mwdb.DBTransaction) error { return s.tx.Rollback(dbtx, b2.Height) })
+		rt.Assert(err == nil, "withdrawal-block-rolled-back")
+		setTip(b1)
+		h3 := history(true)
+		rt.Assert(len(h3) == 1 && h3[0].txhash == D.Hash && h3[0].vout == di && !h3[0].withdrawn && h3[0].blockHeight == b1.Height && len(history(false)) == 1, "deposit-not-withdrawn-again")
+		cv = s.c.Lookup(ck)
+		rt.Assert(len(cv) == 45 && cv[8]&1 == 0 && s.u.Lookup(canonicalUnspentKey(verifWID, &D.Hash, di)) != nil, "deposit-coin-unspent-again")
+		rt.Assert(vUsedAddresses(s) == 1, "only-the-staking-address-is-still-used")
+	} else {
+		rt.Reach("two-blocks-in-one-rollback")
+	}
 	// 4. the deposit's block is reorganised away
-	err = mwdb.Update(s.db, func(dbtx mwdb.DBTransaction) error { return s.tx.Rollback(dbtx, b1.Height) })
+	err := mwdb.Update(s.db, func(dbtx mwdb.DBTransaction) error { return s.tx.Rollback(dbtx, b1.Height) })
 	rt.Assert(err == nil, "deposit-block-rolled-back")
+	rt.Assert(s.c.Lookup(keyCredit(&W.Hash, 0, b2)) == nil && len(s.c.Ents) == 0 && len(s.d.Ents) == 0 && len(s.u.Ents) == 0, "no-mined-coin-or-debit-of-a-rolled-back-block-remains")
 	rt.Assert(vUsedAddresses(s) == 0, "staking-address-no-longer-used-once-its-first-payment-is-gone")
 	listed := false
 	if issued {
